@@ -186,6 +186,7 @@ def check_format_case(case, seed):
     out = []
     for key, text, extra in G.run_format_case(case, seed, scratch()):
         out.append((key, text, {"direction": "replay", "layer": "format", "case": case, "case_seed": seed, "enc": extra["enc"]}))
+    check_format_case.stages = G.run_format_case.last_stages
     return out
 
 
@@ -195,6 +196,7 @@ def run_formats(rep, thorough, seed, results):
     per_fmt = {}
     loca_note = None
     sampled = False
+    stage_counts = {}
     if "fmt_mc" in results:
         _tlc_verdict(rep, "exhaustive:" + results["fmt_mc"].cfgname, results["fmt_mc"])
         if results["fmt_mc"].coverage.get("EmitRecord", (0, 0))[1] == 0:
@@ -213,6 +215,11 @@ def run_formats(rep, thorough, seed, results):
             n += 1
             for key, text, payload in check_format_case(case, seed * 7919 + i):
                 rep.violation(key, text, payload)
+            for enc, st in check_format_case.stages.items():
+                # how far each case got: a (known) finding stops only its own case and encoding, every other
+                # enumerated header still runs all stages; the counts are measured, per format / class / encoding
+                d = stage_counts.setdefault(fmt, {}).setdefault("%s|%s" % (case.get("cls", "any"), enc), {})
+                d[st] = d.get(st, 0) + 1
             if fmt == "ISOTXS" and loca_note is None and case["h"]["nNuc"] == 2 and case["h"]["nsblok"] == 2 and 1 in case["h"]["ords"]:
                 got = G.isotxs_loca(case, seed, scratch())
                 if got is not None and got != case["loca"]:
@@ -233,6 +240,14 @@ def run_formats(rep, thorough, seed, results):
     if loca_note:
         rep.note(loca_note)
     rep.extra["format_cases"] = per_fmt
+    rep.extra["format_stage_reached"] = stage_counts
+    # vacuity of the stages: every format must have cases that ran all stages (write, frames, read, read-back,
+    # re-write, calls) in every encoding it has
+    for fmt in FORMATS:
+        for enc in (("bin",) if fmt == "FIXSRC" else ("bin", "asc")):
+            done = sum(v.get("complete", 0) for k, v in stage_counts.get(fmt, {}).items() if k.endswith("|" + enc))
+            if done == 0:
+                rep.note("no %s %s case reached the last stage: read-back / re-write / call comparison of this encoding are masked by a finding" % (fmt, enc))
     rep.add_replay("format-cases", n, n,
                    "for every header TLC enumerates a container is built from the printed manifest, written (binary and ASCII) by the "
                    "real writer, the file's frame sequence is compared with the grammar, read back and compared datum by datum, "
@@ -371,6 +386,12 @@ def mutants():
          lambda: _patch(dlayxs.DlayxsIO, "_rwFileID", "else fileIdRecord.numBytes", "else 24")),
         ("reader-close-no-check", "BinaryRecordReader.close never compares the trailing count with the leading one", R,
          lambda: _patch(cccc.BinaryRecordReader, "close", "if numBytes2 != self.numBytes:", "if False:")),
+        ("isotxs-7d-reader-indptr", "ISOTXS 7D: the reader's row pointer runs one ahead (fails for NSBLOK = 1 too: must not hide behind the "
+         "listed NSBLOK = 2 finding of the same call site)", ("ISOTXS",),
+         lambda: _patch(isotxs._IsotxsNuclideIO, "_rw7DRecord", "indptr.append(len(indices) + bandWidth)", "indptr.append(len(indices) + bandWidth + 1)")),
+        ("dlayxs-binary-nkfam-count", "DLAYXS 2D: NKFAM list read/written with one entry too many only when reading (binary fails at the "
+         "call site of the listed ASCII-only finding)", ("DLAYXS",),
+         lambda: _patch(dlayxs.DlayxsIO, "_rwSpectra", 'self.metadata["nkfam"], "int", len(self.dlayxs)\n', 'self.metadata["nkfam"], "int", len(self.dlayxs) + (1 if self.metadata["nkfam"] is None else 0)\n')),
         ("pmatrx-gamma-heating-flag", "PMATRX: gamma-heating record keyed on hasNeutronHeatingAndDamage", ("PMATRX",),
          lambda: _patch(pmatrx._PmatrxNuclideIO, "_rwGammaHeating", 'if not self._metadata["hasGammaHeating"]:', 'if not self._metadata["hasNeutronHeatingAndDamage"]:')),
     ]
